@@ -407,4 +407,100 @@ theorem wf_one_owner {s : Desc} (hw : WF s) (t : Nat) (i j : Inst)
     (hi : i ∈ s) (hj : j ∈ s) (hti : t ∈ i.tokens) (htj : t ∈ j.tokens) : i = j :=
   nodup_one_owner s hw.noconf hw.nodup t i j hi hj hti htj
 
+/-! ## who holds a token after a merge -/
+
+/-- in a descriptor with one holder per token, "holds the token" and "is the minimal claimant" coincide
+(the sole claimant is trivially minimal) -/
+theorem wf_owner_spec (d : Desc) (hn : (ids d).Nodup) (he : ∀ i ∈ d, EntryOK i) (hnd : (allTokens d).Nodup)
+    (t : Nat) (i : Inst) (hi : i ∈ d) :
+    t ∈ i.tokens ↔ (claims t i ∧ ∀ j ∈ d, claims t j → keyLe i j) := by
+  constructor
+  · intro ht
+    have hl : i.state ≠ .LEFT := by
+      intro hl; rw [(he i hi).2 hl] at ht; simp at ht
+    refine ⟨⟨hl, by simpa using ht⟩, ?_⟩
+    intro j hj hc
+    have htj : t ∈ j.tokens := by simpa using hc.2
+    rw [nodup_one_owner d hnd hn t i j hi hj ht htj]
+    exact keyLe_refl _
+  · rintro ⟨hc, _⟩
+    simpa using hc.2
+
+theorem casFold_updated_nil (o : Desc) (now : Int) (ts : Desc) (acc : Acc)
+    (h : (ts.foldl (casEntry o now) acc).updated = []) : ts.foldl (casEntry o now) acc = acc := by
+  induction ts generalizing acc with
+  | nil => rfl
+  | cons t ts ih =>
+    rw [List.foldl_cons] at h ⊢
+    have h1 := ih _ h
+    rw [h1] at h ⊢
+    unfold casEntry at h ⊢
+    split
+    · rename_i hc; rw [if_pos hc] at h; simp at h
+    · rfl
+
+/-- a merge that updated nothing built the receiver's own map -/
+theorem mergeAcc_updated_nil (cas : Bool) (now : Int) (this other : Desc)
+    (h : (mergeAcc cas now this other).updated = []) : (mergeAcc cas now this other).this = this := by
+  unfold mergeAcc at h ⊢
+  simp only at h ⊢
+  split at h
+  · rename_i hc
+    rw [if_pos hc]
+    have e := casFold_updated_nil _ _ _ _ h
+    rw [e] at h ⊢
+    exact (foldl_updated_nil _ _ h).1
+  · rename_i hc
+    rw [if_neg hc]
+    exact (foldl_updated_nil _ _ h).1
+
+theorem get?_map_id (f : Inst → Inst) (hf : ∀ i, (f i).id = i.id) (d : Desc) (k : String) :
+    get? (d.map f) k = (get? d k).map f := by
+  induction d with
+  | nil => rfl
+  | cons x xs ih =>
+    rw [List.map_cons, get?_cons, get?_cons, hf x]
+    split
+    · rfl
+    · exact ih
+
+theorem resolveEntry_fields (d : Desc) (i : Inst) :
+    (resolveEntry d i).state = i.state ∧ (resolveEntry d i).ts = i.ts := by
+  unfold resolveEntry; split <;> exact ⟨rfl, rfl⟩
+
+/-- **who holds a token after a merge** (gossip or local CAS, any incoming descriptor, into a
+well-formed state). Let `M` be the map the two loops of `mergeWithTime` build before resolution (per key
+the last-writer-wins entry; for a local CAS with the missing entries tombstoned). Every entry `i` of `M`
+is in the result with the same identity, state and timestamp, and it holds token `t` exactly when it
+claims `t` in `M` and is the minimal claimant of `t` in `M` in the order "not-leaving before leaving, then
+smaller id" — whether or not `resolveConflicts` ran (when it is skipped, `M` has no collision and the
+sole claimant is the minimal one). -/
+theorem merge_owner_spec (cas : Bool) (now : Int) (this other : Desc) (h : WF this) (t : Nat) (i : Inst)
+    (hi : i ∈ (mergeAcc cas now this other).this) :
+    ∃ e, get? (merge cas now this other).state i.id = some e ∧ e.id = i.id ∧ e.state = i.state ∧ e.ts = i.ts ∧
+      (t ∈ e.tokens ↔ (claims t i ∧ ∀ j ∈ (mergeAcc cas now this other).this, claims t j → keyLe i j)) := by
+  have hinv := mergeAcc_inv cas now this other h
+  unfold merge finish
+  split
+  · rename_i hu
+    have hnil : (mergeAcc cas now this other).updated = [] := by simpa using hu
+    have hthis := mergeAcc_updated_nil cas now this other hnil
+    simp only
+    rw [hthis] at hi ⊢
+    exact ⟨i, get?_of_mem_nodup h.nodup hi, rfl, rfl, rfl, wf_owner_spec this h.nodup h.entries h.noconf t i hi⟩
+  · simp only
+    split
+    · rw [resolve_eq, get?_map_id _ (resolveEntry_id _) _ _, get?_of_mem_nodup hinv.nodup hi]
+      exact ⟨_, rfl, resolveEntry_id _ _, (resolveEntry_fields _ _).1, (resolveEntry_fields _ _).2,
+        resolve_owner _ hinv.nodup t i hi⟩
+    · rename_i hc
+      have hnd : (allTokens (mergeAcc cas now this other).this).Nodup := by
+        by_cases htc : (mergeAcc cas now this other).tokCh = true
+        · have hA : ¬ conflictsExist (mergeAcc cas now this other).this = true := fun hce => hc ⟨htc, hce⟩
+          have hB : conflictsExist (mergeAcc cas now this other).this = false := by simpa using hA
+          exact (hasDup_false_iff _).1 hB
+        · exact hinv.noconf (by simpa using htc)
+      exact ⟨i, get?_of_mem_nodup hinv.nodup hi, rfl, rfl, rfl,
+        wf_owner_spec _ hinv.nodup hinv.entries hnd t i hi⟩
+
 end PfC05
